@@ -72,7 +72,7 @@ def make_target(rng, kind):
         t.update(mean=np.round(rng.uniform(-2, 2, p), 2), cov=B @ B.T + 0.1 * np.eye(p), n=int(rng.integers(1, 40)))
     elif kind == "dag_avg_deg":
         pp = int(rng.integers(2, 12))
-        t.update(p=pp, k=float(np.round(rng.uniform(0, 1.5), 2)) if rng.random() < 0.7 else float(rng.choice([0, pp - 1, pp - 1.0, (pp - 1) / 2.0])),
+        t.update(p=pp, k=float(np.round(rng.uniform(0, min(1.5, pp - 1)), 2)) if rng.random() < 0.7 else float(rng.choice([0, pp - 1, pp - 1.0, (pp - 1) / 2.0])),      # k <= p - 1: an edge probability
                  w=(0.5, 2.0), ordering=bool(rng.random() < 0.5))
     elif kind == "dag_full":
         t.update(p=int(rng.integers(1, 9)), w=(-2.0, -0.5), ordering=bool(rng.random() < 0.5))
